@@ -22,11 +22,12 @@ import operator
 
 import z3
 
-from .sym import (Sym, SInt, SBool, SReal, SBuf, SOpaque, Blob, Unsupported, Infeasible,
+from .sym import (Sym, SInt, SBool, SReal, SBuf, SOpaque, Blob, Unsupported, Infeasible, tz_of,
                   mk_int, mk_bool, mk_real, int_term, real_term, bool_term, is_sym,
                   is_intlike, is_reallike, bits_of, int_bitop, py_floordiv_term, py_mod_term,
                   buf_of, is_buflike, _mask_upto)
 from . import bufops
+from . import bitfield
 
 # ----------------------------------------------------------------------------
 #   control-flow exceptions
@@ -409,6 +410,13 @@ class Interp(object):
         if ta is None or tb is None:
             raise PyRaise(TypeError("unsupported operand type(s)"))
         ba_, bb_ = bits_of(a), bits_of(b)
+        opname = _OPNAMES.get(type(op))
+        if opname is not None:
+            if opname in ('//', '%') and isinstance(b, int) and b == 0:
+                raise PyRaise(ZeroDivisionError("integer division or modulo by zero"))
+            r = bitfield.try_binop(opname, a, b)
+            if r is not None:
+                return r
         if isinstance(op, ast.Add):
             bits = None
             if ba_ is not None and bb_ is not None:
@@ -445,7 +453,7 @@ class Interp(object):
             if b < 0:
                 raise PyRaise(ValueError("negative shift count"))
             bits = (ba_ << b) if ba_ is not None else None
-            return mk_int(z3.simplify(ta * z3.IntVal(1 << b)), bits)
+            return mk_int(z3.simplify(ta * z3.IntVal(1 << b)), bits, tz_of(a) + b)
         if isinstance(op, ast.RShift):
             if not isinstance(b, int):
                 raise Unsupported("shift by symbolic amount")
@@ -460,6 +468,10 @@ class Interp(object):
         if isinstance(op, ast.BitXor):
             return int_bitop('^', a, b)
         if isinstance(op, ast.Pow):
+            if not isinstance(b, int):
+                b = self.concrete_int(b)
+                if isinstance(a, int):
+                    return a ** b
             if isinstance(b, int) and 0 <= b <= 4:
                 r = z3.IntVal(1)
                 for _ in range(b):
@@ -1151,9 +1163,59 @@ class Interp(object):
         if not self.truth(self.ev(node.test, frame)):
             raise PyRaise(AssertionError())
 
+    def _merge_if(self, node, cond, frame):
+        """if-conversion of `if c: X.append(a) else: X.append(b)` and
+        `if c: v = a else: v = b` with pure int-like a, b: one path, ite value"""
+        if len(node.body) != 1 or len(node.orelse) != 1:
+            return False
+        s1, s2 = node.body[0], node.orelse[0]
+        def pure_small(e):
+            return isinstance(e, ast.Constant) and isinstance(e.value, (int, bool)) or \
+                (isinstance(e, ast.Name)) or \
+                (isinstance(e, ast.UnaryOp) and isinstance(e.operand, ast.Constant))
+        if isinstance(s1, ast.Expr) and isinstance(s2, ast.Expr) and isinstance(s1.value, ast.Call) and isinstance(s2.value, ast.Call):
+            c1, c2 = s1.value, s2.value
+            if (isinstance(c1.func, ast.Attribute) and isinstance(c2.func, ast.Attribute) and c1.func.attr == 'append' and c2.func.attr == 'append'
+                    and ast.dump(c1.func.value) == ast.dump(c2.func.value) and isinstance(c1.func.value, ast.Name)
+                    and len(c1.args) == 1 and len(c2.args) == 1 and not c1.keywords and not c2.keywords
+                    and pure_small(c1.args[0]) and pure_small(c2.args[0])):
+                tgt = self.ev(c1.func.value, frame)
+                if not isinstance(tgt, list):
+                    return False
+                try:
+                    a, b = self.ev(c1.args[0], frame), self.ev(c2.args[0], frame)
+                except PyRaise:
+                    return False
+                ta, tb = int_term(a), int_term(b)
+                if ta is None or tb is None or isinstance(a, bool) != isinstance(b, bool):
+                    return False
+                ba, bb = bits_of(a), bits_of(b)
+                tgt.append(mk_int(z3.If(cond.t, ta, tb), (ba | bb) if (ba is not None and bb is not None) else None))
+                return True
+        if isinstance(s1, ast.Assign) and isinstance(s2, ast.Assign) and len(s1.targets) == 1 and len(s2.targets) == 1 \
+                and isinstance(s1.targets[0], ast.Name) and isinstance(s2.targets[0], ast.Name) \
+                and s1.targets[0].id == s2.targets[0].id and pure_small(s1.value) and pure_small(s2.value):
+            try:
+                a, b = self.ev(s1.value, frame), self.ev(s2.value, frame)
+            except PyRaise:
+                return False
+            if isinstance(a, (bool, SBool)) or isinstance(b, (bool, SBool)):
+                return False
+            ta, tb = int_term(a), int_term(b)
+            if ta is None or tb is None:
+                return False
+            ba, bb = bits_of(a), bits_of(b)
+            self.store_name(s1.targets[0].id, mk_int(z3.If(cond.t, ta, tb), (ba | bb) if (ba is not None and bb is not None) else None), frame)
+            return True
+        return False
+
     def ex_If(self, node, frame):
         # `if _debug:` with the module's real flag is handled by ordinary evaluation
-        if self.truth(self.ev(node.test, frame), label=node.lineno):
+        tv = self.ev(node.test, frame)
+        tt = self.truth_term(tv)
+        if isinstance(tt, SBool) and self._merge_if(node, tt, frame):
+            return
+        if self.truth(tt, label=node.lineno):
             self.ex_block(node.body, frame)
         else:
             self.ex_block(node.orelse, frame)
@@ -1374,6 +1436,27 @@ class Interp(object):
                          self.ev(node.upper, frame) if node.upper is not None else None,
                          self.ev(node.step, frame) if node.step is not None else None)
         return self.ev(node, frame)
+
+    def concrete_int(self, v, cap=64):
+        """a python int for an int-like value: the unique value under the path
+        condition, else a case split over 0..cap (complete when the path
+        condition bounds the value)"""
+        if isinstance(v, bool):
+            return int(v)
+        if isinstance(v, int):
+            return v
+        t = int_term(v)
+        if t is None:
+            raise PyRaise(TypeError("an integer is required"))
+        u = self.ctx.unique_value(t)
+        if u is not None:
+            return u
+        for k in range(0, cap + 1):
+            if self.ctx.decide(t == k):
+                return k
+        if self.ctx._check() == z3.unsat:
+            raise Infeasible()
+        raise Unsupported("symbolic count not bounded by %d needs a loop invariant" % cap)
 
     def concretize_index(self, idx, n, what):
         """fork a symbolic index over 0..n-1 (and the out-of-range case)"""
@@ -1850,6 +1933,9 @@ def _is_pure(node):
                           ast.BinOp, ast.ListComp, ast.GeneratorExp, ast.DictComp, ast.SetComp)):
             return False
     return True
+
+_OPNAMES = {ast.Add: '+', ast.Mult: '*', ast.FloorDiv: '//', ast.Mod: '%', ast.LShift: '<<', ast.RShift: '>>',
+            ast.BitAnd: '&', ast.BitOr: '|'}
 
 _BINOPS = {
     ast.Add: operator.add, ast.Sub: operator.sub, ast.Mult: operator.mul, ast.Div: operator.truediv,
